@@ -314,3 +314,7 @@ P("p-preset-Z-anchor", ["C20"], [(ASSETS, '        presets=["-cd$"],', '        
 P("p-dir-rename-local", ["C19"], [(DIR, "        for simfile_item in self._dirlist:\n            match = extensions.match(simfile_item, *extensions.SIMFILE)\n            if match:\n                simfile_path = self._path.join(simfile_dir, simfile_item)", "        for simfile_item in self._dirlist:\n            match = extensions.match(simfile_item, *extensions.SIMFILE)\n            if match:\n                simfile_path = self._path.join(simfile_dir, simfile_item)\n                del_me = None")])
 P("p-convert-rename", ["C16", "C17"], [(CONV, "    for property, value in source.items():\n        if _should_copy_property(\n            property,\n            value,\n            invalid_properties,\n            invalid_property_behaviors,\n        ):\n            output[property] = value", "    for key, val in source.items():\n        if _should_copy_property(\n            key,\n            val,\n            invalid_properties,\n            invalid_property_behaviors,\n        ):\n            output[key] = val")])
 P("p-docstrings", ALL, [(INIT, '    """\n    Load a string containing simfile data as a simfile.\n    """', '    """\n    Load a string containing simfile data as a simfile (reworded).\n    """'), (ENGINE, "        # Update song time\n", "        # Update the song time first\n")])
+
+# whole-package AST-computed transforms (behaviour-preserving by construction; confirmed with --with-tests)
+VARIANTS.append({"id": "g-rename-all-locals", "props": ALL, "kind": "preserve", "edits": [], "transform": "rename_locals"})
+VARIANTS.append({"id": "g-reformat-all-modules", "props": ALL, "kind": "preserve", "edits": [], "transform": "reformat"})
